@@ -75,6 +75,8 @@ def _seeded(rng, j):
     c_ = _case(rng, N, k, ["fixed", "adaptive"][j % 2], False, int([2, 0][j % 2]), bool(j % 4 != 3))
     c_["options"]["output"] = "file"
     c_["seeded_twice"] = True
+    if j % 4 in (0, 1):
+        c_["seed_frame"] = "middle"
     c_["cost"] = 3 * c_["cost"]
     return c_
 
@@ -204,7 +206,13 @@ def run_case(spec):
             shutil.rmtree(ra.outdir, ignore_errors=True)
             return {"violations": [], "counters": {"seed_run_failed": 1}, "classes": ["seed_run_failed"], "nontrivial": False, "sample": {"exception": repr(ra.exception)[:160]}}
         seed_sol = ra.solution
-        seed_frame = runcheck.read_frames(seed_sol.path)[0][-1]  # what the file holds under the seed's final step
+        frames_a = runcheck.read_frames(seed_sol.path)[0]
+        seed_frame = frames_a[-1]  # what the file holds under the seed's final step
+        if spec.get("seed_frame") == "middle" and len(frames_a) >= 3:
+            # the caller starts from an EARLIER recorded state of that run: the frame it selected is the seed
+            jf_ = len(frames_a) // 2
+            seed_sol.solve_step = jf_
+            seed_frame = frames_a[jf_]
         r1 = sim.run_sim(spec, [], device=ra.device, seed_solution=seed_sol, keep_dir=True)  # first continuation (not monitored)
         seed_dirs.append(r1.outdir)
         for m_ in getattr(r1, "mutated", None) or []:
